@@ -8,13 +8,13 @@ import (
 
 // VioRec aggregates one (property, signature) over a batch.
 type VioRec struct {
-	Property string `json:"property"`
-	Sig      string `json:"signature"`
-	Count    int64  `json:"count"`
-	FirstRun int64  `json:"first_run"`
-	Detail   string `json:"detail"`
-	Step     int    `json:"step"`
-	Case     *Case  `json:"case,omitempty"`
+	Property string  `json:"property"`
+	Sig      string  `json:"signature"`
+	Count    int64   `json:"count"`
+	FirstRun int64   `json:"first_run"`
+	Detail   string  `json:"detail"`
+	Step     int     `json:"step"`
+	Case     *Case   `json:"case,omitempty"`
 	More     []*Case `json:"more,omitempty"` // a few further failing cases (fallback when the first does not reproduce on its own)
 }
 
@@ -189,14 +189,14 @@ func (a *Agg) Merge(b *Agg) {
 // Batch describes a set of runs: indices First, First+Stride, ... up to Runs
 // (count-bounded) and/or until the deadline (time-bounded).
 type Batch struct {
-	World    World
-	Opt      Options
-	Tag      uint64 // mixed into every sub-seed (property / sub-batch)
-	Runs     int64  // number of run indices to cover (0 = unbounded, use Budget)
-	Budget   time.Duration
-	Workers  int
-	First    int64
-	Stride   int64
+	World           World
+	Opt             Options
+	Tag             uint64 // mixed into every sub-seed (property / sub-batch)
+	Runs            int64  // number of run indices to cover (0 = unbounded, use Budget)
+	Budget          time.Duration
+	Workers         int
+	First           int64
+	Stride          int64
 	StopOnViolation bool // stop handing out new runs once an unknown violation is seen
 }
 
